@@ -1,6 +1,7 @@
 SPECIFICATION SimSpec
 CONSTANTS
   WorkerCpus <- O_Workers
+  LateWorkers <- O_Late
   WorkerGroup <- O_Groups
   WorkerLife <- O_Life
   MaxTicks = 0
